@@ -37,6 +37,8 @@ type wval struct {
 	slice  bool             // nil slice
 	list   []constant.Value // a list of constants (pending layout)
 	isList bool
+	arr    *wval // kind "arrelem": the local array the address points into
+	idx    int
 }
 
 type wFolder struct {
@@ -108,6 +110,43 @@ func (c *Ctx) foldWriterPrologue(f *ssa.Function, sc wScenario) ([]byte, bool, s
 	c.lastFoldRecords = wf.records
 	c.lastFoldFields = wf.fields
 	return wf.emitted, true, ""
+}
+
+// foldLayoutMethod folds a writer method that takes no text (WriteNewline, WriteSpace, the flush …) for one state of
+// the pending layout and the writer's fields; it returns the pending layout afterwards and the bytes written.
+func (c *Ctx) foldLayoutMethod(f *ssa.Function, pending []rune, fields map[*types.Var]constant.Value, last int) (after []rune, emitted []byte, ok bool, why string) {
+	w := c.writerCfg()
+	if w == nil || f == nil || f.Blocks == nil || len(f.Params) != 1 {
+		return nil, nil, false, "not a layout method"
+	}
+	wf := &wFolder{c: c, w: w, fields: map[*types.Var]*wval{}}
+	if last >= 0 {
+		wf.buf = string([]byte{byte(last)})
+	}
+	for fld, v := range fields {
+		wf.fields[fld] = &wval{k: v}
+	}
+	lv := &wval{kind: "nil", slice: true}
+	if len(pending) > 0 {
+		lv = &wval{isList: true}
+		for _, r := range pending {
+			lv.list = append(lv.list, constant.MakeInt64(int64(r)))
+		}
+	}
+	wf.fields[w.pendings] = lv
+	env := map[ssa.Value]*wval{f.Params[0]: {kind: "recv"}}
+	if !wf.run(f, env, 0, nil) {
+		return nil, nil, false, wf.fail
+	}
+	fin := wf.fields[w.pendings]
+	if fin == nil || !(fin.slice || fin.isList) {
+		return nil, nil, false, "the pending layout does not fold"
+	}
+	for _, k := range fin.list {
+		n, _ := constant.Int64Val(constant.ToInt(k))
+		after = append(after, rune(n))
+	}
+	return after, wf.emitted, true, ""
 }
 
 func (wf *wFolder) get(env map[ssa.Value]*wval, v ssa.Value) *wval {
@@ -212,6 +251,10 @@ func (wf *wFolder) run(f *ssa.Function, env map[ssa.Value]*wval, depth int, ret 
 				if a != nil && a.kind == "objfield" {
 					continue
 				}
+				if a != nil && a.kind == "arrelem" && v != nil && v.k != nil {
+					a.arr.list[a.idx] = v.k // filling a slice literal
+					continue
+				}
 				if a == nil || a.kind != "fieldaddr" || v == nil {
 					return wf.stop("store that is not into a writer field")
 				}
@@ -295,6 +338,14 @@ func (wf *wFolder) run(f *ssa.Function, env map[ssa.Value]*wval, depth int, ret 
 					env[x] = &wval{kind: "nil", slice: true}
 					continue
 				}
+				if b := wf.get(env, x.X); b != nil && b.kind == "arr" && x.Low == nil && x.High == nil {
+					if len(b.list) == 0 {
+						env[x] = &wval{kind: "nil", slice: true}
+					} else {
+						env[x] = &wval{isList: true, list: append([]constant.Value(nil), b.list...)}
+					}
+					continue
+				}
 				return wf.stop("slicing")
 			case *ssa.Call:
 				if !wf.call(f, env, x, depth) {
@@ -336,8 +387,33 @@ func (wf *wFolder) run(f *ssa.Function, env map[ssa.Value]*wval, depth int, ret 
 					env[x] = &wval{kind: "elem", k: lv.list[n]}
 					continue
 				}
+				if lv := wf.get(env, x.X); lv != nil && lv.kind == "arr" {
+					iv := wf.get(env, x.Index)
+					if iv == nil || iv.k == nil {
+						return wf.stop("index into a literal does not fold")
+					}
+					n, _ := constant.Int64Val(constant.ToInt(iv.k))
+					if n < 0 || n >= int64(len(lv.list)) {
+						return wf.stop("index out of range on the folded path")
+					}
+					env[x] = &wval{kind: "arrelem", arr: lv, idx: int(n)}
+					continue
+				}
 				env[x] = &wval{kind: "zero"}
-			case *ssa.MakeInterface, *ssa.Alloc, *ssa.MakeSlice:
+			case *ssa.Alloc:
+				// the backing array of a slice literal of bytes / runes
+				if at, ok := deref(x.Type()).Underlying().(*types.Array); ok && at.Len() <= 16 {
+					if b, ok := at.Elem().Underlying().(*types.Basic); ok && b.Info()&types.IsInteger != 0 {
+						av := &wval{kind: "arr"}
+						for i := int64(0); i < at.Len(); i++ {
+							av.list = append(av.list, constant.MakeInt64(0))
+						}
+						env[x] = av
+						continue
+					}
+				}
+				env[x] = &wval{kind: "zero"}
+			case *ssa.MakeInterface, *ssa.MakeSlice:
 				// bookkeeping for the source mapper (a mapping request): its value is never branched on here
 				env[x.(ssa.Value)] = &wval{kind: "zero"}
 			default:
@@ -370,6 +446,18 @@ func (wf *wFolder) call(f *ssa.Function, env map[ssa.Value]*wval, x *ssa.Call, d
 			default:
 				return wf.stop("len of an unsupported value")
 			}
+			return true
+		}
+		if b.Name() == "append" && len(x.Call.Args) == 2 {
+			a, e := wf.get(env, x.Call.Args[0]), wf.get(env, x.Call.Args[1])
+			if a == nil || e == nil || !(a.slice || a.isList) || !(e.slice || e.isList) {
+				return wf.stop("append of values that do not fold")
+			}
+			nv := &wval{isList: true, list: append(append([]constant.Value(nil), a.list...), e.list...)}
+			if len(nv.list) == 0 {
+				nv = &wval{kind: "nil", slice: true}
+			}
+			env[x] = nv
 			return true
 		}
 		return wf.stop("builtin " + b.Name())
